@@ -173,7 +173,13 @@ pub fn run_range<E: Engine>(
     let mut violations = 0u64;
     let mut seen_keys: BTreeMap<String, u64> = BTreeMap::new();
 
+    let progress = std::env::var_os("VERIF_PROGRESS").is_some();
     for run in from..to {
+        if progress {
+            // lets the parent name the in-flight run if this process stalls or dies
+            let _ = writeln!(out, "{}", json!({"type": "begin", "run": run}));
+            let _ = out.flush();
+        }
         let mut rng = Rng::split(seed, E::name(), run);
         let case = E::gen(&mut rng, tier);
         let nt = E::nontrivial(&case);
